@@ -423,6 +423,8 @@ def main(argv):
         rc = 1
     shutil.rmtree(os.path.join(REPLAY, prop), ignore_errors=True)
     os.makedirs(os.path.join(REPLAY, prop), exist_ok=True)
+    need_cex = [o for o in violations if not any(m.get('counterexample') for m in failed[o])]
+    cexs = kanirun.find_counterexamples(prop, need_cex) if need_cex else {}
     for o in violations:
         rp = os.path.join(REPLAY, prop, re.sub(r'[^\w.\-]', '_', o) + '.txt')
         cex = None
@@ -436,7 +438,7 @@ def main(argv):
             body.append(m.get('rendered', ''))
             body.append('')
         if cex is None:
-            cex = kanirun.find_counterexample(prop, o)
+            cex = cexs.get(o)
         if cex:
             body.insert(3, 'failing input (replayed on the real code): %s' % json.dumps(cex))
         else:
